@@ -9,8 +9,12 @@ RULE = ("for valid SPEC-generated exchanges (Valve: info / players / rules units
         "all vectors on a few bases, thorough: on many) is injected at each unit — for units that start with a handshake or challenge "
         "round (Valve and the games on it, GameSpy 3) both at the first exchange of an attempt and at its last one, after the earlier "
         "ones were answered; attempts are counted on the wire "
-        "(initial request of that unit), the result is compared with the fault-free result. Non-trivial = a delivery was "
-        "received; distinct = distinct implementation outputs.")
+        "(initial request of that unit), the result is compared with the fault-free result. For the families with whole-query "
+        "C10 theorems (Props/C10_<family>_whole.lean: valve, quake, gs2, gs3, jc2m, ffow) every injected script is also "
+        "rebuilt by the model driver from the SPEC's plan (entry <family>plan: Spec.faultyScript / faultyFaults): the two "
+        "lines must be identical, the hypotheses of the theorem are evaluated (theorem-domain count), and result and the "
+        "whole list of datagrams sent (with failed flags) are compared with the SPEC's faultyExpected / faultySends. "
+        "Non-trivial = a delivery was received; distinct = distinct implementation outputs.")
 ASSUMPTIONS = ["timeouts are scripted deliveries (silence); real socket timeouts are C12's subject"]
 TRUSTED = ["hand-written Lean model of utils.rs retry_on_timeout and of the protocols' use of it, checked against the code on every run"]
 
